@@ -39,8 +39,10 @@ Dangerous(u) == LET n == Norm(u) IN
   \/ (HasPre(n, DATA) /\ ~(HasPre(n, DIMG) /\ \E p \in OkImg : HasPre(SubSeq(n, 12, Len(n)), p)))
 
 \* ---- XHTML: identical except that void elements are written with " />" ----
-XhtmlTok(x, y) == IF x[1] = "open" /\ x[2] \in VoidTags
-                  THEN y[1] = "void" /\ y[2] = x[2] /\ y[3] = x[3]      \* must gain the slash
+\* (without XHTML a void element is written with '>': a slash on the A side is itself a breach - an
+\* option that leaked from another instance - even when both sides are then identical)
+XhtmlTok(x, y) == IF x[1] \in {"open", "void"} /\ x[2] \in VoidTags
+                  THEN x[1] = "open" /\ y[1] = "void" /\ y[2] = x[2] /\ y[3] = x[3]      \* must gain the slash
                   ELSE x = y
 XhtmlRel(a, b) == Len(a) = Len(b) /\ \A i \in 1..Len(a) : XhtmlTok(a[i], b[i])
 
